@@ -193,7 +193,7 @@ func genCss(files []*srcFile) {
 	//   if COND { return true }   ...   return COND
 	//   COND ::= R.MatchString(value) | OtherHandler(value) | in(splitVals, values) | in(splitVals, colorValues)
 	type hcond struct {
-		kind   string // rx, call, in, insp, exact, rec
+		kind   string // rx, call, in, insp, insep, exact, rec
 		name   string
 		words  []string
 		sep    byte
@@ -240,7 +240,7 @@ func genCss(files []*srcFile) {
 			if id.Name == "recursiveCheck" && len(ce.Args) == 2 && isIdent(ce.Args[0], "splitVals") && isIdent(ce.Args[1], "usedFunctions") && haveUsed && (split == "sp" || split == "s1") {
 				return hcond{kind: "rec", sep: sepByte, maxLen: maxLen, fns: used}, true
 			}
-			if id.Name == "in" && len(ce.Args) == 2 && isIdent(ce.Args[0], "splitVals") && (split == "sv" || split == "sp") {
+			if id.Name == "in" && len(ce.Args) == 2 && isIdent(ce.Args[0], "splitVals") && (split == "sv" || split == "sp" || split == "s1") {
 				var ws []string
 				if isIdent(ce.Args[1], "values") && haveValues {
 					ws = values
@@ -252,8 +252,11 @@ func genCss(files []*srcFile) {
 				k := "in"
 				if split == "sp" {
 					k = "insp"
+				} else if split == "s1" {
+					// in(strings.Split(value, ";"), values): the pieces as they are, no trimming, no lower-casing
+					k = "insep"
 				}
-				return hcond{kind: k, words: ws}, true
+				return hcond{kind: k, words: ws, sep: sepByte}, true
 			}
 			if handlerFuncs[id.Name] && id.Name != fd.Name.Name && len(ce.Args) == 1 && isIdent(ce.Args[0], "value") && strings.HasSuffix(id.Name, "Handler") {
 				return hcond{kind: "call", name: id.Name}, true
@@ -474,6 +477,8 @@ func genCss(files []*srcFile) {
 				cs = append(cs, "CIn "+coqBytesList(c.words))
 			case "insp":
 				cs = append(cs, "CInSpace "+coqBytesList(c.words))
+			case "insep":
+				cs = append(cs, fmt.Sprintf("CInSep %d %s", c.sep, coqBytesList(c.words)))
 			case "exact":
 				cs = append(cs, "CExact "+coqBytesList(c.words))
 			case "rec":
